@@ -29,10 +29,17 @@ from harness import core, gen_scheme
 from harness.core import bool_, enc, lst, strs
 from harness.props import _c10_kernels as kernels_mod
 from harness.props import _c10_schemes as builtin
+from harness.props import _c10_steps as steps_mod
 
 PROP = "C10"
 REQUIRED_THEOREMS = [
     "containers_overwritten_before_read",
+    "generated_steps_eq_model",
+    "generated_objective_eq_model",
+    "source_containers_overwritten_before_read",
+    "outputs_not_aliased_partial",
+    "outputs_not_aliased_counterexample",
+    "penalty_output_is_copy",
     "objective_history_independent_partial",
     "objective_equals_fresh_optimizer_partial",
     "c12_parameters_history_independent",
@@ -57,6 +64,13 @@ TRUSTED = [
     "the numerical computations are uninterpreted in the model (`fn`): that they are functions of the values they read "
     "from the containers (no hidden state in megacomplexes, LAPACK, scipy.optimize.nnls) is observed by the oracle only",
     "extractor harness/props/_c10_kernels.py (Python ast) of the Kernels table lean/GlotaranModel/Generated/C10.lean",
+    "translator harness/props/_c10_steps.py (Python ast + abstract interpretation of data flow / live references) of the Steps "
+    "table lean/GlotaranModel/Generated/C10Steps.lean; hard-wired in it: which attribute holds an object of which class, that "
+    "fill_item results hold the Parameter objects of their parameters argument, that IntervalItem.applies / has_interval are pure, "
+    "that megacomplex.calculate_matrix and EstimationProvider.calculate_residual are the external calls; objects of classes "
+    "outside the six analysed files (TeeContext, Parameters, ParameterHistory, xarray) are opaque",
+    "output provenance (Result fields): hand-written `provenance` in GlotaranModel/C10.lean, tied by object identity / "
+    "np.shares_memory / digests on real Optimizers only",
     "numba: compiles the loop nests the source shows; with parallel=True distributes only `prange` loops that are not "
     "nested in another `prange` (inner ones and those of parallel=False functions are sequential); variables assigned in "
     "the loop body are private; whole-array expressions are element-wise; a double store is not torn — observed by "
@@ -93,12 +107,16 @@ RULE = (
     "full model). optimize case = (builtin scheme, method in trf/"
     "dogbox/lm, add_svd, stale expression value yes/no): snapshots + run twice + fresh scheme; optimize-vs-model = the "
     "observed trial/result vectors of least_squares are given to the model's optimizeRun as strategy and the final "
-    "containers are compared. thread case = (builtin scheme, NUMBA_NUM_THREADS). A case is "
+    "containers are compared. outputs case = (builtin scheme, method): "
+    "optimize() + create_result() on a real Optimizer, every output held over two more evaluations (live at hand-out / still the "
+    "container's object / changed vs model provenance / aliased); every penalty vector of every walk is held until the walk ends; "
+    "the first Result is held over the second optimize(). thread case = (builtin scheme, NUMBA_NUM_THREADS). A case is "
     "non-trivial when at least one evaluation completed after a different vector or an interrupted evaluation; distinct = "
     "distinct (scheme, vectors, operations)."
 )
 
 LEAN_GEN = core.LEAN / "GlotaranModel" / "Generated" / "C10.lean"
+LEAN_GEN_STEPS = core.LEAN / "GlotaranModel" / "Generated" / "C10Steps.lean"
 FAULT_MSG = "verif-c10-fault"
 METHODS = ["TrustRegionReflection", "Dogbox", "Levenberg-Marquardt"]
 SVD_SUFFIXES = ("_left_singular_vectors", "_singular_values", "_right_singular_vectors")
@@ -116,9 +134,23 @@ def generate(ck):
     ck.extra["kernels"] = [{"name": k["name"], "file": k["file"], "parallel": k["parallel"], "ast_sha1": k["ast_sha1"],
                             "stores": sum(1 for a in k["accesses"] if a["write"]), "calls": len(k["calls"])} for k in ks]
     ck._kernels = ks
+    # steps table: the container data flow of one objective evaluation as the source has it
+    table = steps_mod.extract(core.REPO)
+    stext = steps_mod.render_lean(table)
+    if not LEAN_GEN_STEPS.exists() or LEAN_GEN_STEPS.read_text() != stext:
+        LEAN_GEN_STEPS.write_text(stext)
+    ck._steps = table
+    bad = [st[1] for b in table["blocks"] for st in b["steps"] if st[0] == "untranslatable"]
+    ck.extra["steps_table"] = {"blocks": len(table["blocks"]), "steps": sum(len(b["steps"]) for b in table["blocks"]),
+                               "untranslatable": bad[:5],
+                               "in_place_updates": [st[2] for b in table["blocks"] for st in b["steps"] if st[0] == "inplace"][:8]}
     return [{"table": "Kernels (lean/GlotaranModel/Generated/C10.lean)",
              "source": sorted({k["file"] for k in ks}),
-             "sha1": hashlib.sha1(text.encode()).hexdigest(), "kernels": len(ks)}]
+             "sha1": hashlib.sha1(text.encode()).hexdigest(), "kernels": len(ks)},
+            {"table": "Steps (lean/GlotaranModel/Generated/C10Steps.lean): container reads / overwrites / clears / appends / "
+                      "in-place updates, method calls, loops and branches of one objective evaluation in program order",
+             "source": sorted(table["sha"]), "sha1": hashlib.sha1(stext.encode()).hexdigest(),
+             "blocks": len(table["blocks"])}]
 
 
 # ------------------------------------------------------------------------------------------
@@ -576,6 +608,7 @@ def run_walk(ck, case, use_model=True, collect=None):
         cur = init_id      # id of the vector the private parameters hold; None after a failed set
         completed_after_change = False
         last_eval_done = None
+        held = []          # (operation, the array object handed out, its bytes at hand-out)
         with instrumented(scheme):
             for k, op in enumerate(ops):
                 f = tuple(op["fault"]) if op.get("fault") else None
@@ -603,6 +636,18 @@ def run_walk(ck, case, use_model=True, collect=None):
                     else:
                         outcome = f"error:{type(e).__name__}"
                 INJ.fault = None
+                # ---- oracle: a penalty vector handed out earlier is not overwritten by a later evaluation
+                stale = [k0 for k0, arr, b0 in held if arr.tobytes() != b0]
+                if stale:
+                    ck.violation(_walk_key("held-penalty-overwritten", ref, struct),
+                                 f"the penalty vector returned by operation {stale[0] + 1} was changed in place by operation "
+                                 f"{k + 1}: the array handed out is a live view of a buffer that later evaluations overwrite",
+                                 {"kind": "walk", **case, "ops": ops[: k + 1]})
+                    clean = False
+                    break
+                if isinstance(value, np.ndarray):
+                    held.append((k, value, value.tobytes()))
+                    ck.count("held-outputs-checked")
                 if op["op"] == "eval":
                     cur = None if set_raised else op["id"]
                     lines.append(f"eval {op['id']} {bool_(set_raised)} {fault_tok(f)}")
@@ -860,11 +905,14 @@ def run_optimize_case(ck, case, fresh_run=True):
         svd = bool(scheme.add_svd)
         before = scheme_snapshot(scheme, ignore_svd=svd)
         outs = []
+        first = None
         for run in range(2):
             try:
                 with open(os.devnull, "w") as null, contextlib.redirect_stdout(null):
                     res = optimize(scheme, verbose=False, raise_exception=True)
                 outs.append(("result", result_fingerprint(res)))
+                if run == 0:
+                    first = res
             except Exception as e:  # noqa: BLE001
                 outs.append(("exception", f"{type(e).__name__}: {e}"[:200]))
             after = scheme_snapshot(scheme, ignore_svd=svd)
@@ -876,6 +924,14 @@ def run_optimize_case(ck, case, fresh_run=True):
                 ck.violation(key, f"optimize() (run {run + 1}, {ref.get('method')}) changed the caller's scheme: {diff}", case)
                 clean = False
                 break
+        # the result of the first run, held while the second one ran, is what it was at hand-out
+        if clean and first is not None and outs[0][0] == "result":
+            d = fingerprint_diff(outs[0][1], result_fingerprint(first))
+            ck.count("first-result-held-over-second-optimize")
+            if d:
+                ck.violation("first-result-changed-by-second-optimize", f"the Result of the first optimize() changed while the "
+                             f"second optimize() of the same scheme ran: {d[:8]}", case)
+                clean = False
         # a third run on a freshly built scheme object
         if clean and fresh_run:
             scheme2 = build_scheme(ref)
@@ -980,6 +1036,135 @@ def optimize_vs_model(ck, ref):
     if bad:
         ck.count("container-mismatch")
         ck.diagnostic(f"optimize {ref.get('name', 'spec')} {ref.get('method')}: " + "; ".join(bad[:4]), payload)
+
+
+# ------------------------------------------------------------------------------------------
+# outputs: copies and live references
+# ------------------------------------------------------------------------------------------
+def _obj_digest(obj):
+    from glotaran.parameter import ParameterHistory, Parameters
+
+    if isinstance(obj, Parameters):
+        return _h([(p.label, float(p.value).hex(), repr(p.standard_error)) for p in obj.all()])
+    if isinstance(obj, ParameterHistory):
+        return _h(obj.number_of_records, np.asarray(obj.to_dataframe().values, dtype=float))
+    if isinstance(obj, (list, tuple)):
+        return _h(repr([float(v).hex() for v in obj]))
+    return _h(np.array(obj, dtype=float))
+
+
+def _shares(a, arrays):
+    a = np.asarray(a)
+    return any(isinstance(b, np.ndarray) and b.size and a.size and np.shares_memory(a, b) for b in arrays)
+
+
+def outputs_vs_model(ck, ref):
+    """which objects handed out by an Optimizer are live references into its containers (at hand-out) and still are after
+    later evaluations (aliased): implementation (object identity / shared memory) vs the model's `provenance` / `aliased`;
+    oracle: every output is compared bit for bit with its digest taken at hand-out after two more evaluations"""
+    from glotaran.optimization.matrix_provider import MatrixProviderLinked
+    from glotaran.optimization.optimizer import Optimizer
+
+    with warnings.catch_warnings():
+        warnings.simplefilter("ignore")
+        scheme = build_scheme(ref)
+        opt = Optimizer(scheme, verbose=False, raise_exception=True)
+        struct = structure_of(opt)
+        try:
+            with open(os.devnull, "w") as null, contextlib.redirect_stdout(null):
+                opt.optimize()
+                res = opt.create_result()
+        except Exception as e:  # noqa: BLE001
+            ck.count(f"outputs-vs-model:skipped:{type(e).__name__}")
+            return
+        if opt._optimization_result is None:
+            ck.count("outputs-vs-model:skipped:least_squares-failed")
+            return
+
+        def containers():
+            """name of the output -> the object / arrays the corresponding container holds NOW"""
+            c = {"optimized_parameters": opt._parameters, "parameter_history": opt._parameter_history,
+                 "initial_parameters": scheme.parameters, "penalty": [], "jacobian": [], "covariance_matrix": []}
+            for g, grp in enumerate(opt._optimization_groups):
+                mp, ep = grp._matrix_provider, grp._estimation_provider
+                c[f"additional_penalty:{g}"] = ep._clp_penalty
+                flat = lambda box: [np.asarray(x) for v in (box.values() if isinstance(box, dict) else box)   # noqa: E731
+                                    for x in (v if isinstance(v, list) else [v]) if x is not None]
+                for d in grp._dataset_group.dataset_models:
+                    e = enc(d)
+                    c[f"matrix:{e}"] = [mp._matrix_containers[d].matrix]
+                    if d in mp._global_matrix_containers:
+                        c[f"global_matrix:{e}"] = [mp._global_matrix_containers[d].matrix]
+                    c[f"clp:{e}"] = flat(ep._clps)
+                    c[f"residual:{e}"] = flat(ep._residuals)
+                    c["penalty"] += flat(ep._residuals)
+            return c
+
+        held = {"optimized_parameters": res.optimized_parameters, "parameter_history": res.parameter_history,
+                "initial_parameters": res.initial_parameters, "jacobian": res.jacobian, "covariance_matrix": res.covariance_matrix}
+        for g, ap in enumerate(res.additional_penalty):
+            held[f"additional_penalty:{g}"] = ap
+        for label, ds in res.data.items():
+            for name in ("matrix", "global_matrix", "clp", "residual"):
+                if name in ds:
+                    held[f"{name}:{enc(label)}"] = ds[name].values
+
+        def is_live(name, obj, cont):
+            c = cont.get(name)
+            if c is None:
+                return False
+            if isinstance(c, list) and not name.startswith("additional_penalty"):
+                return _shares(obj, c)
+            return obj is c
+
+        live0 = {k: is_live(k, v, containers()) for k, v in held.items() if v is not None}
+        # the penalty vector of one more evaluation at the result vector (this replaces the matrices the result wraps)
+        held["penalty"] = opt.calculate_penalty()
+        live0["penalty"] = is_live("penalty", held["penalty"], containers())
+        at_handout = {k: _obj_digest(v) for k, v in held.items() if v is not None}
+        labels, x0, lo, hi = free_vector(scheme)
+        xr_ = np.array(opt._optimization_result.x, dtype=float)
+        for v in (np.minimum(np.maximum(xr_ * 1.03 + 0.004, lo), hi), x0):
+            try:
+                opt.objective_function(v)
+            except Exception:  # noqa: BLE001
+                ck.count("outputs-vs-model:later-evaluation-raised")
+        after = containers()
+        live1 = {k: live0[k] and is_live(k, v, after) for k, v in held.items() if v is not None}
+        changed = {k: _obj_digest(v) != at_handout[k] for k, v in held.items() if v is not None}
+    ans = core.lean_driver(PROP, [spec_line(struct), "outputs"])[1]
+    model = dict(t.split("=", 1) for t in ans.split(" "))
+    payload = {"kind": "outputs", "scheme": ref}
+    ck.case(("outputs-vs-model", json.dumps(ref, sort_keys=True, default=str)), nontrivial=True)
+    for k in held:
+        if held[k] is None:
+            continue
+        if k not in model:
+            ck.disagree("output-unknown-to-model", f"output {k} is not an output of the model", payload)
+            continue
+        m_live, m_alias = model[k][0] == "T", model[k][1] == "T"
+        ck.count(f"output:{k.split(':')[0]}:live={int(live0[k])}:aliased={int(live1[k])}:changed={int(changed[k])}")
+        ck.oracle_evals += 1
+        # model `aliased` = live reference to an object that evaluations update in place: then the object handed out must still
+        # be the container's object after the later evaluations, and only then may it have changed
+        if m_live != live0[k] and not m_alias and not live1[k] and not changed[k]:
+            # copy or view of an object that is replaced anyway: internal, no observable consequence
+            ck.diagnostic(f"output {k}: live reference at hand-out: implementation {live0[k]}, model {m_live} (not aliased)", payload)
+        elif m_live != live0[k] or (m_alias and not live1[k]) or (changed[k] and not m_alias):
+            ck.disagree("output-provenance", f"output {k}: implementation live reference at hand-out={live0[k]}, still the "
+                        f"container's object after later evaluations={live1[k]}, changed={changed[k]}; model live={m_live}, "
+                        f"aliased={m_alias}", payload)
+        if changed[k] and k == "penalty":
+            ck.violation("held-penalty-overwritten", "the penalty vector handed out by calculate_penalty() changed when the "
+                         "objective was evaluated at other vectors", payload)
+        elif changed[k] and not live1[k]:
+            ck.disagree("output-changed-without-alias", f"output {k} changed after later evaluations although it shares "
+                        "nothing with the container", payload)
+        elif changed[k]:
+            # a live Result field of an Optimizer that is evaluated again: outside the property text (optimize() never does
+            # that) — recorded in the evidence, Lean: outputs_not_aliased_counterexample
+            ck.extra.setdefault("live_result_fields_changed", {})
+            ck.extra["live_result_fields_changed"][k.split(":")[0]] = ck.extra["live_result_fields_changed"].get(k.split(":")[0], 0) + 1
 
 
 # ------------------------------------------------------------------------------------------
@@ -1252,6 +1437,8 @@ def run(ck):
         run_optimize_case(ck, {"kind": "optimize", "scheme": ref}, fresh_run=(not ck.quick) or n % 3 == 0)
         if (not ck.quick or n % 3 == 1) and not ref.get("stale"):
             optimize_vs_model(ck, ref)
+        if (not ck.quick or n % 3 == 2 or ref.get("add_svd")) and not ref.get("stale"):
+            outputs_vs_model(ck, ref)
     ck.extra["optimize_s"] = round(time.time() - t0, 1)
 
     # threads
@@ -1296,6 +1483,8 @@ def replay(ck, case, from_corpus=False):
         run_walk(ck, case, use_model=False)
     elif kind == "optimize":
         run_optimize_case(ck, case)
+    elif kind == "outputs":
+        outputs_vs_model(ck, case["scheme"])
     elif kind == "threads":
         names = [case["name"]]
         ts = case.get("threads", [1, 16])
